@@ -119,7 +119,13 @@ func Project(doc, projection bsonkit.Doc) (bsonkit.Doc, error) {
 
 	// merge fields (overlays from operator expressions)
 	for path, value := range state.merge {
-		_, err := bsonkit.Put(res, path, value, false)
+		// copy the value as it may be a window into an array of the original
+		// document that a merged sub path would otherwise write into
+		value, err = bsonkit.ConvertValue(value)
+		if err != nil {
+			return nil, err
+		}
+		_, err = bsonkit.Put(res, path, value, false)
 		if err != nil {
 			return nil, err
 		}
